@@ -4,7 +4,7 @@
    functions use the regenerated CHARSET, generator constants and BECH32M_CONST (Gen/GenCodecsC11.v). *)
 From PV Require Import Base.Bytes Base.Outcome Gen.GenCodecsC11 Model.Base58 Model.Bech32
   Proofs.Base58P Proofs.Bech32P Proofs.Bech32StrP Proofs.Bech32DetectP Proofs.Bech32DetectStrP
-  Proofs.Bech32Detect3P.
+  Proofs.Bech32Detect3P Proofs.Bech32CanonP.
 Local Open Scope Z_scope.
 
 (* ================================ Base58 ================================================================== *)
@@ -123,6 +123,13 @@ Theorem C11_bech32_encode_decode : forall hrp ver prog, triple_ok hrp ver prog -
             /\ Z.of_nat (length s) = Z.of_nat (length hrp) + 8 + (8 * Z.of_nat (length prog) + 4) / 5.
 Proof. exact segwit_encode_decode. Qed.
 Print Assumptions C11_bech32_encode_decode.
+
+(* ... and encode is the inverse of decode: whatever decode accepts is, case aside, exactly the string encode
+   produces for the decoded (version, program): the accepted spelling of an address is unique *)
+Theorem C11_bech32_decode_encode : forall hrp s ver prog, decode hrp s = Some (ver, prog) ->
+  bytes8 prog /\ encode hrp ver prog = Ret (Some (map lower_c s)).
+Proof. exact segwit_decode_encode. Qed.
+Print Assumptions C11_bech32_decode_encode.
 
 Example C11_triple_ok_example : triple_ok [98; 99]%N 1 (repeat 7 32).
 Proof.
